@@ -160,9 +160,22 @@ def search_on_break(ctx, cfg, broken):
     return False
 
 
+def check_text_level(ctx):
+    """Properties/C12text.v (TFF level): the preamble bytes, read in Coq by the specification reader
+    Model/TffText.v, are exactly the generated declaration/axiom lists, and every emitted problem
+    starts with them.  A failure (e.g. the translator mis-parses an edited preamble) raises Broken."""
+    import vlib
+    vlib.build_coq(["theories/Properties/C12text.vo"])
+    ths = vlib.check_property_file("Properties/C12text.v")
+    print(f"[check] {len(ths)} text-level theorems re-checked (Properties/C12text.v); axioms: " +
+          (", ".join(sorted({a for t in ths for a in t['axioms']})) or "none"), flush=True)
+    ctx.samples[:0] = [{"theorem": t["theorem"], "statement": t["statement"][:700], "axioms": t["axioms"]} for t in ths]
+
+
 def extra(ctx, cfg, results):
     # the axioms of the working tree's preamble, evaluated directly as well (cheap, independent of Coq)
     search_preamble(ctx)
+    check_text_level(ctx)
 
 
 def replay(ctx, cfg, r):
